@@ -223,6 +223,18 @@ def check_get_extrema(ctx, db):
                               'appended vectors are exactly the lattice corners %s (C = columns-1 along v1/x, R = rows-1 along v2/y)' % sorted(want),
                               'extreme offsets are not the lattice corners: got %s, expected %s%s' % (sorted(corners), sorted(want), '' if bad is None else ' (uninterpretable: %s)' % bad.text()[:60]))
     ctx.require('R-CORNERS branch combinations', n, 8)
+    # explicit kinds: an empty list still denotes {0}: no path leaves the arm before something is appended
+    for labels, stmts, top in tables.switch_arms(sw):
+        for l in labels:
+            kind = {v: k for k, v in vals.items()}.get(l)
+            if kind not in ('Explicit', 'ExplicitX', 'ExplicitY'):
+                continue
+            apps = [x for s in stmts for x in s.walk() if x.k == 'CXXMemberCallExpr' and (x.callee or '').split('::')[-1] in ('append', 'append_unsafe')]
+            rets = [x for s in stmts for x in s.walk() if x.k == 'ReturnStmt']
+            first = min([a.id for a in apps] + [10 ** 9])
+            ctx.check(bool(apps) and not any(r.id < first for r in rets), 'R-COUNT', 'Repetition::get_extrema/%s/never-empty' % kind, top.loc(),
+                      'every path through the arm appends at least one extreme (an empty list denotes the zero vector alone)',
+                      'the arm can return without appending any extreme although the repetition denotes at least the zero vector')
     k, roles = minmax.check_minmax(ctx, f, label='Repetition::get_extrema')
     ctx.require('R-MINMAX updates in get_extrema', k, 8)
     # the accumulators that feed the result must include one min and one max per axis used
